@@ -359,8 +359,12 @@ func (v *Vue) exprEnv(ctx VueContext, expression string) map[string]any {
 	// (only names that are called: a variable that merely shares its name with a registered
 	// function - title, type, default - stays undefined when the data does not have it)
 	for _, name := range calledNames(helpers.MaskQuoted(expression)) {
-		if _, isVar := env[name]; isVar {
-			continue
+		if val, isVar := env[name]; isVar {
+			// (a variable that cannot be called does not take the call away from the registered
+			// function of its name: title(name) + '!' with a variable title means what title(name) means)
+			if _, registered := v.funcMap[name]; !registered || reflect.ValueOf(val).Kind() == reflect.Func {
+				continue
+			}
 		}
 		name := name
 		if fn, registered := v.funcMap[name]; registered {
